@@ -208,10 +208,13 @@ theorem graph_index_slicepath_correct_partial (comps : List Comp) (shape : List 
     filter_zipIdx_none (fun c => c.kind == Kind.nonScalar) comps 0
       (fun c hc => basic_kind_ne_nonScalar c (hbasic c hc))
   unfold graphIndex planGraph at h
-  rw [huse] at h
   by_cases hempty : ((slicedOf comps).isEmpty && (scalarsOf comps).isEmpty && (nonScalarsOf comps).isEmpty) = true
-  · rw [if_pos hempty] at h; simp [bind, Except.bind] at h
-  rw [if_neg hempty] at h
+  · -- impossible: the Slice path needs a slice or two scalars
+    exfalso
+    simp only [Bool.and_eq_true, List.isEmpty_iff] at hempty
+    have : useSlice comps = false := by simp [useSlice, hempty.1.1, hempty.1.2]
+    rw [this] at huse; cases huse
+  rw [if_neg hempty, huse] at h
   simp only [if_true] at h
   by_cases hnone : ((sliceEntriesOf comps).any Option.isNone) = true
   · rw [if_pos hnone] at h; simp [bind, Except.bind] at h
@@ -345,11 +348,29 @@ theorem graph_index_gatherpath_correct (comps : List Comp) (shape : List Nat) (r
   simp only [useSlice, Bool.or_eq_false_iff, Bool.not_eq_false', decide_eq_false_iff_not] at huse'
   obtain ⟨hsl, hsc⟩ := huse'
   have hsl' : slicedOf comps = [] := by simpa using hsl
+  have hnumpy : axiswise numpyAxis comps shape = .ok r → numpyIndex comps shape = .ok r := by
+    intro hnp
+    unfold numpyIndex
+    rw [if_neg (by omega)]
+    have hv : comps.filter Comp.isVec = [] := filter_none _ _ (fun c hc => basic_not_vec c (hbasic c hc))
+    rw [hv, if_neg (by simp), needsTranspose_basic comps hbasic]
+    simpa using hnp
   unfold graphIndex planGraph at h
-  rw [huse] at h
   by_cases hempty : ((slicedOf comps).isEmpty && (scalarsOf comps).isEmpty && (nonScalarsOf comps).isEmpty) = true
-  · rw [if_pos hempty] at h; simp [bind, Except.bind] at h
-  rw [if_neg hempty, hns] at h
+  · -- only full slices: one Identity node, and NumPy returns the whole tensor too
+    rw [if_pos hempty] at h
+    simp only [Bool.and_eq_true, List.isEmpty_iff] at hempty
+    have hr : r = View.init shape := by
+      simpa [runPlan, List.foldlM, runOp, bind, Except.bind, pure, Except.pure] using h.symm
+    subst hr
+    refine hnumpy (axiswise_all_skip comps shape hlen ?_)
+    intro c hc
+    obtain ⟨j, hj⟩ := List.getElem?_of_mem hc
+    have h1 := filter_zipIdx_nil_forall (fun c => c.kind == Kind.scalar) comps 0 hempty.1.2 j c hj
+    have h2 := filter_zipIdx_nil_forall (fun c => c.kind == Kind.sliced) comps 0 hempty.1.1 j c hj
+    have h3 := basic_kind_ne_nonScalar c (hbasic c hc)
+    cases hk : c.kind <;> rw [hk] at h1 h2 h3 <;> first | rfl | (exact absurd h1 (by decide)) | (exact absurd h2 (by decide)) | (exact absurd h3 (by decide))
+  rw [if_neg hempty, huse, hns] at h
   simp only [Bool.false_eq_true, if_false, List.nil_append, bind, Except.bind] at h
   -- exactly one scalar
   have hone : ∃ c j, scalarsOf comps = [(c, j)] := by
@@ -713,8 +734,10 @@ theorem dyn_step_omitted_stop_refused (lo : Bnd) (s : Int) :
     planGraph [.slice lo .none (.dyn s)] = .error .refused := by
   cases lo <;> rfl
 
-/-- Refusal: an index of only full slices (`A[:]`, `A[:, :]`, …) — see the model comment. -/
-theorem all_full_refused (n : Nat) : planGraph (List.replicate n .full) = .error .refused := by
+/-- An index of only full slices (`A[:]`, `A[:, :]`, …) translates to a single Identity node, and
+the graph returns the whole tensor — NumPy's result.  (Before /repo commit 35a0ff1 this form died
+with AttributeError at decoration time: finding C01-D37, fixed.) -/
+theorem all_full_identity (n : Nat) : planGraph (List.replicate n .full) = .ok [.identity] := by
   have h : ∀ (k : Nat) (f : Comp × Nat → Bool), (∀ m, f (.full, m) = false) →
       ((List.replicate n Comp.full).zipIdx k).filter f = [] := by
     intro k f hf
@@ -726,5 +749,24 @@ theorem all_full_refused (n : Nat) : planGraph (List.replicate n .full) = .error
   have h3 : nonScalarsOf (List.replicate n .full) = [] := h 0 _ (by intro m; rfl)
   unfold planGraph
   rw [if_pos (by rw [h1, h2, h3]; rfl)]
+
+/-- … and the view it computes is the initial view of the tensor, which is what NumPy returns. -/
+theorem all_full_correct (n : Nat) (shape : List Nat) (hn : n ≤ shape.length) :
+    graphIndex (List.replicate n .full) shape = .ok (View.init shape) ∧
+    numpyIndex (List.replicate n .full) shape = .ok (View.init shape) := by
+  refine ⟨?_, ?_⟩
+  · unfold graphIndex
+    rw [all_full_identity]
+    rfl
+  · have hb : ∀ c ∈ List.replicate n Comp.full, c.basic = true := by
+      intro c hc; rw [List.eq_of_mem_replicate hc]; rfl
+    unfold numpyIndex
+    rw [if_neg (by simp; omega)]
+    have hv : (List.replicate n Comp.full).filter Comp.isVec = [] :=
+      filter_none _ _ (fun c hc => basic_not_vec c (hb c hc))
+    rw [hv, if_neg (by simp), needsTranspose_basic _ hb]
+    simp only [Bool.false_eq_true, if_false]
+    exact axiswise_all_skip _ shape (by simpa using hn)
+      (fun c hc => by rw [List.eq_of_mem_replicate hc]; rfl)
 
 end OV.Props.C11
